@@ -26,9 +26,9 @@ RULE = ("programs = root kind {coro, gencoro, gen, agen} x chain of 0..N links, 
         "(await coro / await types.coroutine generator / await obj whose __await__ returns coro.__await__() / a generator / a plain iterator; "
         "async for / asend / __anext__ / athrow / aclose on a native async generator; yield from generator / gencoro / coroutine / "
         "coroutine wrapper / plain iterator / asend..aclose awaitables) x terminal {trap = yield in a types.coroutine function, bare yield, "
-        "non-frame leaf} x statement layout {plain, assign, multi-line, try/finally, with, with @contextmanager} x own suspension before/after "
+        "non-frame leaf of kind {plain iterator, __bool__ False, __len__ 0, empty self-awaiting container}} x statement layout {plain, assign, multi-line, try/finally, with, with @contextmanager} x own suspension before/after "
         "the delegation; every suspension point of each program plus unstarted, exhausted and closed roots and self-extraction of a running "
-        "link; exhaustive over edge-kind paths of depth 1 and 2 (quick: every 4th depth-2 path), random chains of depth 2..4 (quick, 220 programs) / 2..6 (thorough, 9000 programs). distinct = distinct (program, stop) descriptors; "
+        "link; exhaustive over edge-kind paths of depth 1 and 2 (quick: every 4th depth-2 path), random chains of depth 2..4 (quick, 220 programs) / 2..6 (thorough, 9000 programs), 30% of them extracted at every suspension point on the way to the probed one (monitored run); async-zip programs: a coroutine / types.coroutine generator / async generator parent (optionally under an outer coroutine) pulling alternately from 2..3 live sibling async generators through temporary __anext__ / asend / athrow awaitables (optionally with a coroutine level inside each sibling), monitored at every suspension point of the same run; and coroutine wrappers / asend / athrow awaitables of 2..3 alternating long-lived targets as extraction roots, each dropped while its target lives on. distinct = distinct (program, stop) descriptors; "
         "non-trivial = chain of >= 2 objects or with a leaf / wrapper / exhausted / running link")
 CONFIG = dict(
     coq=["C03"], level="proof",
@@ -57,6 +57,7 @@ CONFIG = dict(
 ASYNC_EDGES = ["await_coro", "await_gencoro", "await_wrap", "await_genret", "afor", "asend", "anext", "athrow", "aclose"]
 GEN_EDGES = ["yf_gen", "yf_gencoro", "yf_coro", "yf_wrap", "yf_asend", "yf_anext", "yf_athrow", "yf_aclose"]
 LAYOUTS = ["plain", "assign", "multi", "try", "with", "cmgen"]
+LEAFKINDS = ["plain", "bool", "len", "selfaw"]
 CHILD_KIND = {"await_coro": "coro", "await_wrap": "coro", "yf_coro": "coro", "yf_wrap": "coro",
               "await_gencoro": "gencoro", "yf_gencoro": "gencoro", "await_genret": "gen", "yf_gen": "gen"}
 AGEN_MODE = {"afor": "iter", "asend": "iter", "anext": "iter", "athrow": "athrow", "aclose": "aclose"}
@@ -95,6 +96,14 @@ class It:
         self.n += 1
         if self.n > 1: raise StopIteration
         return "I"
+class ItBool(It):                 # a pending future: bool(fut) means "done"
+    def __bool__(self): return False
+class ItLen(It):                  # an empty mailbox: len() is the number of queued messages
+    def __len__(self): return 0
+class ItSelf(It):                 # empty user-defined awaitable container: awaiting it parks on itself
+    def __len__(self): return 0
+    def __await__(self): return self
+LEAF = {"plain": It, "bool": ItBool, "len": ItLen, "selfaw": ItSelf}
 class AwWrap:
     def __init__(self, c): self.c = c
     def __await__(self): return self.c.__await__()
@@ -162,7 +171,9 @@ def build_source(desc):
             if term == "trap":
                 body.append(f"t = trap(); S({i}, [('gen', t)]); c = t")
             elif term == "leaf":
-                body.append(f"it = It(); S({i}, [('leaf', it)]); c = " + ("AwRet(it)" if is_async else "it"))
+                lk = desc.get("leaf", "plain")
+                direct = (not is_async) or lk == "selfaw"
+                body.append(f"it = LEAF[{lk!r}](); S({i}, [('leaf', it)]); c = " + ("it" if direct else "AwRet(it)"))
             elif term == "yield":
                 assert not is_async
                 body.append(f"S({i}, [])")
@@ -205,6 +216,60 @@ def build_source(desc):
     return "\n".join(out)
 
 
+
+def build_zip_source(desc):
+    """A parent that keeps n sibling async generators alive and pulls from them alternately
+    through short-lived asend / __anext__ / athrow awaitables."""
+    z = desc["zip"]
+    parent, call, n, rounds, inner, outer = z["parent"], z["call"], z["n"], z["rounds"], z["inner"], z["outer"]
+    lvl = 1 if outer else 0           # position of the zip parent among the program's nodes
+    out = [PRELUDE]
+    if inner:
+        out.append(f"async def inner():\n    t = trap(); S({lvl + 2}, [('gen', t)])\n    await t\n")
+        wait = [f"o = inner(); S({lvl + 1}, [('coro', o)])", "await o"]
+    else:
+        wait = [f"t = trap(); S({lvl + 1}, [('gen', t)])", "await t"]
+    w8 = "\n".join("            " + x for x in wait)
+    w12 = "\n".join("        " + x for x in wait)
+    out.append(f"async def sib_iter(tag):\n    for _k in range({rounds}):\n{w12}\n        S({lvl + 1}, []); yield _k\n")
+    out.append(f"async def sib_throw(tag):\n    while True:\n        try:\n            S({lvl + 1}, []); yield 0\n"
+               f"        except ValueError:\n{w8}\n")
+    is_async = parent in ("coro", "agen")
+    kw = "await" if is_async else "yield from"
+    calls = [call] * n if call != "mixed" else (["anext", "athrow", "asend"] * n)[:n]
+    body = ["sibs = [" + ", ".join(("sib_throw(%d)" if c == "athrow" else "sib_iter(%d)") % i for i, c in enumerate(calls)) + "]"]
+    body.append(f"S({lvl}, [])")
+    for i, c in enumerate(calls):
+        if c == "athrow":
+            body.append(f"{kw} sibs[{i}].asend(None)")        # to the first yield, without suspending
+    body.append(f"for _r in range({rounds}):")
+    for i, c in enumerate(calls):
+        tag = "athrow" if c == "athrow" else "asend"
+        expr = {"anext": "__anext__()", "asend": "asend(None)", "athrow": "athrow(ValueError())"}[c]
+        body.append(f"    S({lvl}, [('{tag}', None), ('agen', sibs[{i}])])")
+        body.append(f"    {kw} sibs[{i}].{expr}")                # the awaitable is a temporary: freed right after
+    if parent == "agen":
+        body += [f"S({lvl}, [])", "yield 0"]
+    name = f"n{lvl}"
+    head = {"coro": f"async def {name}():", "agen": f"async def {name}():", "gencoro": f"@types.coroutine\ndef {name}():"}[parent]
+    out.append(head + "\n" + "\n".join("    " + b for b in body) + "\n")
+    if outer:
+        if parent == "agen":
+            out.append("async def n0():\n    o = n1(); S(0, [('asend', None), ('agen', o)])\n    async for _v in o:\n        pass\n")
+        else:
+            out.append("async def n0():\n    o = n1(); S(0, [('" + ("coro" if parent == "coro" else "gen") + "', o)])\n    await o\n")
+    return "\n".join(out)
+
+
+def zip_programs(tier, rng):
+    combos = list(itertools.product(["coro", "gencoro", "agen"], ["anext", "asend", "athrow", "mixed"], [2, 3], [0, 1], [0, 1]))
+    for parent, call, n, inner, outer in combos:
+        rounds = 3 if n == 2 else 2
+        yield {"root": ("coro" if outer else parent),
+               "zip": {"parent": parent, "call": call, "n": n, "rounds": rounds, "inner": inner, "outer": outer},
+               "monitor": True}
+
+
 class Probe(Exception):
     pass
 
@@ -216,7 +281,7 @@ class Runner:
         self.desc = desc
         self.active = []
         self.ns = {"S": self.record, "X": selfx}
-        src = build_source(desc)
+        src = build_zip_source(desc) if "zip" in desc else build_source(desc)
         exec(compile(src, "<c03-program>", "exec"), self.ns)
         self.kind = desc["root"]
         self.x = self.ns["n0"]()
@@ -303,6 +368,8 @@ def run_case(desc):
     stop = desc["stop"]
     if stop == "self":
         return run_self(desc)
+    if "awroot" in desc:
+        return run_awroot(desc)
     r = Runner(desc)
     if stop == "closed":
         if r.kind == "agen":
@@ -316,9 +383,12 @@ def run_case(desc):
         while r.step():
             pass
     elif stop >= 0:
-        for _ in range(stop + 1):
+        for k in range(stop + 1):
             if not r.step():
                 return {"harness_error": "program finished before suspension %d" % stop}
+            if desc.get("monitor") and k < stop:
+                for wc in (True, False):       # watched at every suspension point of the same run
+                    stackscope.extract(r.x, with_contexts=wc)
     x = r.x
     objs = r.objects()
     return observe(stackscope, x, objs, lambda: r.throw(), take_tb=(stop not in ("done", "closed")))
@@ -382,6 +452,81 @@ def observe(stackscope, x, objs, thrower, take_tb=True, sl=None, extractor=None)
                 fr = stacks[True].frames
                 res["tb_identical"] = (len(fr) == len(tb) and all(p.pyframe is f and p.lineno == ln for p, (f, ln) in zip(fr, tb)))
     return res
+
+
+def run_awroot(desc):
+    """n long-lived targets (coroutines / async generators) resumed alternately through fresh,
+    short-lived awaitables (coro.__await__() / asend / athrow); each awaitable is the extraction
+    root while its target is suspended inside it, then it is dropped while the target lives on."""
+    import stackscope
+
+    a = desc["awroot"]
+    kind, n, rounds, stop = a["kind"], a["n"], a["rounds"], desc["stop"]
+    active = {}
+    ns = {"S": lambda i, items: active.__setitem__("items", items)}
+    src = PRELUDE + f"""
+async def tick(tag):
+    for _k in range({rounds + 1}):
+        t = trap(); S(1, [('gen', t)])
+        await t
+async def ag_iter(tag):
+    for _k in range({rounds + 1}):
+        t = trap(); S(1, [('gen', t)])
+        await t
+        yield _k
+async def ag_throw(tag):
+    while True:
+        try:
+            yield 0
+        except ValueError:
+            t = trap(); S(1, [('gen', t)])
+            await t
+"""
+    exec(compile(src, "<c03-awroot>", "exec"), ns)
+    mk = {"wrap": "tick", "asend": "ag_iter", "athrow": "ag_throw"}[kind]
+    targets = [ns[mk](i) for i in range(n)]
+    if kind == "athrow":
+        for t in targets:
+            try:
+                t.asend(None).send(None)
+            except StopIteration:
+                pass
+    for k in range(stop + 1):
+        tgt = targets[k % n]
+        aw = {"wrap": lambda: tgt.__await__(), "asend": lambda: tgt.asend(None),
+              "athrow": lambda: tgt.athrow(ValueError())}[kind]()
+        aw.send(None)                       # target now suspended on its trap, inside this awaitable
+        if k < stop:
+            for wc in (True, False):
+                stackscope.extract(aw, with_contexts=wc)
+            if kind != "wrap":
+                try:
+                    aw.send(None)           # let the async generator reach its next yield
+                except StopIteration:
+                    pass
+            del aw                          # freed; its target stays alive and suspended
+            continue
+        tag = {"wrap": "wrap", "asend": "asend", "athrow": "athrow"}[kind]
+        objs = [(tag, aw), ("coro" if kind == "wrap" else "agen", tgt)] + list(active["items"])
+
+        def thrower():
+            try:
+                aw.throw(Probe())
+            except Probe as ex:
+                tb = ex.__traceback__.tb_next
+                out = []
+                while tb is not None:
+                    out.append((tb.tb_frame, tb.tb_lineno))
+                    tb = tb.tb_next
+                return out
+            except BaseException as ex:
+                return "other exception: %r" % (ex,)
+            return "the probe exception did not come back"
+        res = observe(stackscope, aw, objs, thrower)
+        if kind == "wrap":
+            for t in targets:
+                t.close()                   # also silences "never awaited" for targets not reached yet
+        return res
 
 
 def run_self(desc):
@@ -518,12 +663,17 @@ def direct_oracle(desc, obs):
 
 
 def classify(desc, obs):
-    labs = ["root:" + desc["root"], "depth=%d" % len(desc.get("links", [])),
+    labs = ["root:" + desc.get("root", "awaitable"), "depth=%d" % len(desc.get("links", [])),
             "stop:" + (desc["stop"] if isinstance(desc["stop"], str) else ("unstarted" if desc["stop"] < 0 else "suspended"))]
     for l in desc.get("links", []):
         labs.append("edge:" + l[0])
     if desc.get("term"):
-        labs.append("term:" + desc["term"])
+        labs.append("term:" + desc["term"] + ("/" + desc["leaf"] if desc.get("leaf") else ""))
+    if desc.get("monitor"):
+        labs.append("monitored")
+    for fam in ("zip", "awroot"):
+        if fam in desc:
+            labs.append(fam + ":" + "/".join(str(desc[fam][k]) for k in sorted(desc[fam])))
     for n in desc.get("nodes", []):
         labs.append("layout:" + n[0])
     if "chain" in obs:
@@ -534,14 +684,17 @@ def classify(desc, obs):
 
 
 # ------------------------------------------------------------------ generation
-def program(root, edges, term, rng, layouts=None, prepost=None):
+def program(root, edges, term, rng, layouts=None, prepost=None, leaf=None):
     n = len(edges) + 1
     nodes = []
     for i in range(n):
         lay = layouts[i] if layouts else rng.choice(LAYOUTS)
         pp = prepost[i] if prepost else [rng.random() < 0.3, rng.random() < 0.3]
         nodes.append([lay, bool(pp[0]), bool(pp[1])])
-    return {"root": root, "links": [[e] for e in edges], "term": term, "nodes": nodes}
+    prog = {"root": root, "links": [[e] for e in edges], "term": term, "nodes": nodes}
+    if term == "leaf":
+        prog["leaf"] = leaf or rng.choice(LEAFKINDS)
+    return prog
 
 
 def with_stops(prog, rng=None, max_stops=None):
@@ -580,7 +733,8 @@ def make_inputs(tier, seed):
         for term in terms_for(root):
             for lay in LAYOUTS:
                 for pp in itertools.product([False, True], repeat=2):
-                    yield from with_stops(program(root, [], term, rng, layouts=[lay], prepost=[list(pp)]))
+                    for lk in (LEAFKINDS if term == "leaf" else [None]):
+                        yield from with_stops(program(root, [], term, rng, layouts=[lay], prepost=[list(pp)], leaf=lk))
     # exhaustive edge kinds
     n2 = 0
     for d in (1, 2):
@@ -590,6 +744,10 @@ def make_inputs(tier, seed):
                     n2 += 1
                     if (n2 + seed) % 4:
                         continue        # quick: every 4th depth-2 path (rotating with the seed)
+                if d == 1 and term == "leaf":
+                    for lk in LEAFKINDS:       # every way a chain can end in a non-frame leaf x every leaf kind
+                        yield from with_stops(program(root, edges, term, rng, leaf=lk))
+                    continue
                 reps = 2 if d == 1 else 1
                 for _ in range(reps):
                     yield from with_stops(program(root, edges, term, rng))
@@ -610,4 +768,15 @@ def make_inputs(tier, seed):
             edges.append(e)
             kind = child_kind(e)
         prog = program(root, edges, rng.choice(terms_for(kind)), rng)
+        if rng.random() < 0.3:
+            prog["monitor"] = True      # extract at every suspension point on the way, as a monitoring tool would
         yield from with_stops(prog, rng, max_stops=8 if tier == "quick" else 12)
+    # sibling async generators consumed alternately ("async zip"), monitored at every suspension point
+    for z in zip_programs(tier, rng):
+        yield from with_stops(z)
+    # awaitables (coroutine wrappers / asend / athrow) of alternating long-lived targets as extraction roots
+    for kind in ("wrap", "asend", "athrow"):
+        for n in (2, 3):
+            rounds = 3 if n == 2 else 2
+            for k in range(n * rounds):
+                yield {"awroot": {"kind": kind, "n": n, "rounds": rounds}, "stop": k}
